@@ -645,6 +645,16 @@ def _replay_c03(prop, harness, rec):
         return {"status": "reproduced", "out": {"runs": o["runs"], "bad_runs": len(o["bad"]), "first": b},
                 "detail": f"{len(o['bad'])} of {o['runs']} runs: 3 threads pushed {b['pushed']} items concurrently, the shared queue reports "
                           f"{b['reported_len']} and pop() drains {b['drained_by_pop']}"}
+    if not ordered:
+        # second native scenario for the plain queue: pops racing with the pushes (a pop that finds the injector empty although
+        # the counter said otherwise is only reachable that way)
+        r = run_case(["ws_len_race", 0, 12, 2, 20000, "mixed"], 180)
+        o2 = r.get("out") if "error" not in r else None
+        if o2 and o2["bad"]:
+            b = o2["bad"][0]
+            return {"status": "reproduced", "out": {"runs": o2["runs"], "bad_runs": len(o2["bad"]), "first": b},
+                    "detail": f"{len(o2['bad'])} of {o2['runs']} runs: 1 thread pushed {b['pushed']} items while 2 threads popped; {b['popped_by_threads']} were popped, "
+                              f"afterwards the shared queue reports {b['reported_len']} and pop() drains {b['drained_by_pop']}"}
     return {"status": "not_reproduced", "detail": "reported length and drain matched the pushes in every run (the race is probabilistic)", "out": o}
 
 
@@ -868,8 +878,9 @@ def _replay_c13_waiter(prop, harness, rec):
 
 
 @replayer("c12_stop_settles_a_waiter_that_polls")
+@replayer("c12_stop_of_a_stopped_pool")
 def _replay_c12_polls(prop, harness, rec):
-    r = run_case(["pool_cancel", "polls"], 30)
+    r = run_case(["pool_cancel", "late" if "stopped_pool" in harness else "polls"], 30)
     if "error" in r:
         return {"status": "unavailable", "detail": r["error"]}
     if r["timed_out"]:
